@@ -139,6 +139,19 @@ def observe(circuit, top_entries=None):
     return res
 
 
+def comps_of(circuit):
+    """every sub-circuit (pre-order): reported start, duration, and the extent of the leaf operations it contains"""
+    res = []
+    for sc in circuit.composite_operations:
+        ops = sc.decomposed_operations()
+        d1 = [n.operation.start_time for n in sc._circuit_graph.get_nodes_at(depth=1)] if not sc.empty_composite else []
+        res.append({'s': ticks(sc.start_time), 'd': ticks(sc.duration), 'n': len(ops),
+                    'lo': ticks(min([o.start_time for o in ops], default=0.0)),
+                    'hi': ticks(max([o.end_time for o in ops], default=0.0)),
+                    'first': ticks(min(d1, default=0.0))})
+    return res
+
+
 def handle(case):
     env = {GlobalRegistryKey[k]: v for k, v in case['env'].items()}
     out = {}
@@ -150,7 +163,7 @@ def handle(case):
         out['leafinfo'] = b.leafinfo
         if 'plain' in want:
             ops = observe(c, b.top_entries)
-            out['plain'] = {'ops': ops, 'duration': ticks(c.duration), 'again': observe(c, b.top_entries) == ops,
+            out['plain'] = {'ops': ops, 'duration': ticks(c.duration), 'again': observe(c, b.top_entries) == ops, 'comps': comps_of(c),
                             'reps': [s.nr_of_repetitions for s in c.composite_operations]}
         if 'plain_dur_first' in want:
             c2 = Builder(case).build(case['prog'])
@@ -159,7 +172,7 @@ def handle(case):
         if 'unrolled' in want:
             c3 = Builder(case).build(case['prog'])
             u = c3.apply_modifiers()
-            out['unrolled'] = {'ops': observe(u), 'duration': ticks(u.duration),
+            out['unrolled'] = {'ops': observe(u), 'duration': ticks(u.duration), 'comps': comps_of(u),
                                'reps': [s.nr_of_repetitions for s in u.composite_operations]}
             u2 = u.apply_modifiers()
             out['unrolled_twice'] = {'ops': observe(u2), 'duration': ticks(u2.duration)}
